@@ -11,6 +11,7 @@
 From Coq Require Import QArith Reals List.
 From Coquelicot Require Import Coquelicot.
 From TT Require Import Num NumR NumI ParamI NumD ParamD Tree M_like M_height M_site P_like_param P_height_param P_grad_param.
+From TT Require Import M_coalescent P_coalescent_param M_bdsk P_bdsk_param M_gmrf P_gmrf_param P_grad_more.
 
 Theorem C12_dual_numbers_enclose_derivatives : forall x0, Num_R (R -> R) dual (relD x0) NumF NumD.
 Proof. exact NumFD_R. Qed.
@@ -38,6 +39,60 @@ Theorem C12_site_rates_gradient : forall x0 shape Shape K inv Inv mu Mu,
   list_R _ _ (relD x0) (weibull_rates NumF shape K inv mu) (weibull_rates NumD Shape K Inv Mu).
 Proof. exact weibull_rates_derivative_enclosed. Qed.
 Print Assumptions C12_site_rates_gradient.
+
+(* ---- coalescent priors: population sizes and event times are functions of the variable; the
+        order of the events is decided on their exact keys (shared by both sides) ---- *)
+Theorem C12_constant_coalescent_gradient : forall x0 theta Theta evs Evs,
+  relD x0 theta Theta -> list_R _ _ (TT_o_M_coalescent_o_event_R (R -> R) dual (relD x0)) evs Evs ->
+  relD x0 (constant_lp NumF theta evs) (constant_lp NumD Theta Evs).
+Proof. exact constant_lp_derivative_enclosed. Qed.
+Print Assumptions C12_constant_coalescent_gradient.
+
+Theorem C12_exponential_coalescent_gradient : forall x0 theta Theta gq g G evs Evs,
+  relD x0 theta Theta -> relD x0 g G ->
+  list_R _ _ (TT_o_M_coalescent_o_event_R (R -> R) dual (relD x0)) evs Evs ->
+  relD x0 (exponential_lp NumF theta gq g evs) (exponential_lp NumD Theta gq G Evs).
+Proof. exact exponential_lp_derivative_enclosed. Qed.
+Print Assumptions C12_exponential_coalescent_gradient.
+
+Theorem C12_skyride_gradient : forall x0 thetas Thetas evs Evs,
+  list_R _ _ (relD x0) thetas Thetas ->
+  list_R _ _ (TT_o_M_coalescent_o_event_R (R -> R) dual (relD x0)) evs Evs ->
+  relD x0 (skyride_lp NumF thetas evs) (skyride_lp NumD Thetas Evs).
+Proof. exact skyride_lp_derivative_enclosed. Qed.
+Print Assumptions C12_skyride_gradient.
+
+Theorem C12_skygrid_gradient : forall x0 thetas Thetas evs Evs,
+  list_R _ _ (relD x0) thetas Thetas ->
+  list_R _ _ (TT_o_M_coalescent_o_event_R (R -> R) dual (relD x0)) evs Evs ->
+  relD x0 (skygrid_lp NumF thetas evs) (skygrid_lp NumD Thetas Evs).
+Proof. exact skygrid_lp_derivative_enclosed. Qed.
+Print Assumptions C12_skygrid_gradient.
+
+(* ---- birth-death skyline w.r.t. the per-epoch rates (R, delta, s), any number of epochs; and the
+        constant-rate model w.r.t. lambda, mu, psi ---- *)
+Theorem C12_bdsk_gradient : forall x0 survival r Rr Rn RN delta Delta s S rho times tips ints,
+  option_R _ _ (list_R _ _ (relD x0)) r Rr ->
+  list_R _ _ (relD x0) Rn RN -> list_R _ _ (relD x0) delta Delta -> list_R _ _ (relD x0) s S ->
+  relD x0 (bdsk_model_log_prob NumF survival r Rn delta s rho times tips ints)
+          (bdsk_model_log_prob NumD survival Rr RN Delta S rho times tips ints).
+Proof. exact bdsk_derivative_enclosed. Qed.
+Print Assumptions C12_bdsk_gradient.
+
+Theorem C12_birth_death_gradient : forall x0 survival lam Lam mu Mu psi Psi rho origin tips ints,
+  relD x0 lam Lam -> relD x0 mu Mu -> relD x0 psi Psi ->
+  relD x0 (bd_log_prob NumF survival lam mu psi rho origin tips ints)
+          (bd_log_prob NumD survival Lam Mu Psi rho origin tips ints).
+Proof. exact bd_derivative_enclosed. Qed.
+Print Assumptions C12_birth_death_gradient.
+
+(* ---- GMRF (plain, weighted, time-aware) w.r.t. the field, the precision and the weights ---- *)
+Theorem C12_gmrf_gradient : forall x0 l L v V x X tau Tau,
+  relD x0 l L -> TT_o_M_gmrf_o_variant_R (R -> R) dual (relD x0) v V ->
+  list_R _ _ (relD x0) x X -> relD x0 tau Tau ->
+  relD x0 (gmrf NumF l v x tau) (gmrf NumD L V X Tau).
+Proof. exact gmrf_derivative_enclosed. Qed.
+Print Assumptions C12_gmrf_gradient.
 
 (* non-vacuity: the independent variable itself: value x0, derivative 1 *)
 Example C12_example : forall q : Q, relD (Q2R q) (fun x => x) (dvar q).
